@@ -37,7 +37,7 @@ def run(ctx, R, tier):
     R.rule("C18-R1", "shared sets are guarded: one count_lock region per atomic operation (process, notify_done); every set access of close under the lock; lock created before the first worker starts", floor=4)
     R.rule("C18-R2", "no blocking (join, sleep, Event.wait, job execution) while count_lock is held", floor=1)
     R.rule("C18-R3", "served once or refused: one worker.process(job) on every non-raising path of Pool.process; a new worker only under the bound; refusal reaches denyConnection, which always closes", floor=6)
-    R.rule("C18-R4", "worker loop: slot cleared before notify_done; a None job ends the thread; close hands None to every worker and empties both sets", floor=3)
+    R.rule("C18-R4", "worker loop: slot cleared before notify_done; a None job ends the thread; close hands None to every worker and empties both sets", floor=5)
 
     pool = p.cls("Pyro5.svr_threads.Pool")
     proc = ctx.fn("Pyro5.svr_threads.Pool.process")
@@ -174,6 +174,8 @@ def run(ctx, R, tier):
             "a refused connection can stay open")
 
     # ---------------------------------------------------------------- R4
+    from .c05 import worker_loop_rules
+    worker_loop_rules(ctx, R, "C18-R4")
     wr = ctx.fn("Pyro5.svr_threads.Worker.run")
     wcfg = ctx.cfg(wr)
 
